@@ -163,7 +163,18 @@ func (c *Calcium) doReplaceWorkload(
 					removeMessage.Success = true
 					return
 				},
-				nil,
+				// rollback: the old workload stays, so the new one has to go,
+				// otherwise both would live on one resource allocation
+				func(ctx context.Context, failedByCond bool) error {
+					if failedByCond || createMessage.WorkloadID == "" {
+						return nil
+					}
+					newWorkload, err := c.store.GetWorkload(ctx, createMessage.WorkloadID)
+					if err != nil {
+						return err
+					}
+					return c.doRemoveWorkload(ctx, newWorkload, true)
+				},
 				c.config.GlobalTimeout,
 			)
 		},
